@@ -39,3 +39,24 @@ NEUTRAL["grad_accumulate_out_of_place"] = [(F, "        if x1.requires_grad: x1.
 NEUTRAL["zero_fill_in_place_when_present"] = [(T, "        self.grad = Tensor(np.zeros_like(self.data), device=self.device)",
                                                "        if self._grad is not None and self._grad.shape == self.data.shape and self._grad.flags.writeable:\n            self._grad.fill(0)\n        else:\n            self.grad = Tensor(np.zeros_like(self.data), device=self.device)")]
 NEUTRAL["visited_as_id_set"] = [(T, "            if node not in visited_nodes:\n                visited_nodes.add(node)", "            if id(node) not in visited_nodes:\n                visited_nodes.add(id(node))")]
+
+MUTANTS["C07"] = {
+    "orig_prev_captured_at_construction": [(T, "        self.prev = []\n    \n    def __enter__(self):\n        global gradient__\n        # the mode to restore is the one in force when the block is entered\n        self.prev.append(gradient__)\n        gradient__ = False\n        \n    def __exit__(self, exc_type, exc_val, exc_tb):\n        global gradient__\n        gradient__ = self.prev.pop()",
+                                                "        self.prev = gradient__\n    \n    def __enter__(self):\n        global gradient__\n        gradient__ = False\n        \n    def __exit__(self, exc_type, exc_val, exc_tb):\n        global gradient__\n        gradient__ = self.prev")],
+    "no_grad_exit_sets_true": [(T, "        gradient__ = self.prev.pop()", "        self.prev.pop(); gradient__ = True")],
+    "retain_exit_sets_false": [(T, "        retain_grads__ = self.prev.pop()", "        self.prev.pop(); retain_grads__ = False")],
+    "no_grad_exit_skipped_on_exception": [(T, "        gradient__ = self.prev.pop()", "        p = self.prev.pop()\n        if exc_type is None or issubclass(exc_type, Exception) and not issubclass(exc_type, MemoryError): gradient__ = p")],
+    "retain_exit_restores_grad_flag": [(T, "        retain_grads__ = self.prev.pop()", "        global gradient__\n        retain_grads__ = self.prev.pop()\n        gradient__ = True")],
+    "single_slot_prev_reentrant_breaks": [(T, "        self.prev.append(retain_grads__)\n        retain_grads__ = True", "        self.prev = [retain_grads__, retain_grads__]\n        retain_grads__ = True")],
+    "all_for_any_in_mul": [(F, "    inputs = (x1, x2)\n    req_grad = any(inp.requires_grad for inp in inputs)\n    out = Tensor(out_data, device=x1.device, children=inputs, requires_grad=req_grad, operation=\"Mul\")", "    inputs = (x1, x2)\n    req_grad = all(inp.requires_grad for inp in inputs)\n    out = Tensor(out_data, device=x1.device, children=inputs, requires_grad=req_grad, operation=\"Mul\")")],
+    "setter_skips_float_check": [(T, "        if value and not self.is_floating_point:\n            raise RuntimeError(\"Only floating point Tensors can require gradients\")\n        \n        self._requires_grad = value", "        self._requires_grad = value")],
+    "keep_all_interior_grads": [(T, "if node is not self and not node.is_leaf and not node._retain_grad and not retain_grads__:", "if False:")],
+    "release_marked_interiors": [(T, "if node is not self and not node.is_leaf and not node._retain_grad and not retain_grads__:", "if node is not self and not node.is_leaf and not retain_grads__:")],
+    "backward_allowed_on_nograd": [(T, "        if not self.requires_grad:\n            raise RuntimeError(\"Trying to call backward on Tensor with requires_grad=False\")", "        if False:\n            raise RuntimeError(\"Trying to call backward on Tensor with requires_grad=False\")")],
+    "nonleaf_setter_allowed": [(T, "        if not self.is_leaf:\n            raise RuntimeError(\"you can only change", "        if False:\n            raise RuntimeError(\"you can only change")],
+    "ctor_ignores_mode": [(T, "        req_grad = requires_grad and gradient__", "        req_grad = requires_grad")],
+    "numpy_guard_dropped": [(T, "        if self.requires_grad:\n            raise RuntimeError(\"Can't call numpy()", "        if False:\n            raise RuntimeError(\"Can't call numpy()")],
+    "detach_keeps_flag": [(T, "return Tensor(self.data.copy(), requires_grad=False, name=self.name, device=self.device)", "return Tensor(self.data.copy(), requires_grad=self.requires_grad, name=self.name, device=self.device)")],
+    "zero_grad_on_nograd_child": [(T, "if child.requires_grad and (child._grad is None or not child.is_leaf):", "if child._grad is None or not child.is_leaf:")],
+}
+NEUTRAL["ctx_prev_as_local_tuple_stack"] = [(T, "        self.prev.append(gradient__)", "        self.prev = self.prev + [gradient__]")]
